@@ -62,6 +62,9 @@ func (m *mon) check(ch *chainsim.Chain, bt *chainsim.BlockTrace, specs []hist.Tx
 				}
 				continue
 			}
+			if i < len(specs) && (specs[i].Label == "release" || specs[i].Label == "release-all") {
+				m.c.Count("scripted_releases_of_foreign_owned_objects", 1)
+			}
 			var locked int64
 			for _, ev := range t.Res.Events {
 				switch e := ev.(type) {
@@ -172,6 +175,19 @@ func run(c *vf.Ctx) {
 					Msgs: []hist.MsgSpec{{Kind: "call", Pkg: hist.CfgPath, Func: "SetS", Args: []string{"alpha", fmt.Sprint(rng.IntN(300))}}}})
 			}
 		}
+		// a scripted round in every history: the peer realm takes references to objects owned by the
+		// store realm, then drops them in transactions that touch nothing of the store realm (the bytes
+		// freed belong to a realm other than the one being finalized)
+		if len(h.Blocks) > 6 {
+			call := func(label, fn string, args ...string) hist.TxSpec {
+				return hist.TxSpec{Signer: hist.Users[(i+len(label))%len(hist.Users)], Gas: 80_000_000, Fee: 1_000_000, Label: label,
+					Msgs: []hist.MsgSpec{{Kind: "call", Pkg: hist.PeerPath, Func: fn, Args: args}}}
+			}
+			h.Blocks[3] = append(h.Blocks[3], call("hold", "Hold", "a"), call("hold", "Hold", "b"), call("hold", "Hold", "c"))
+			h.Blocks[4] = append(h.Blocks[4], call("release", "Release"))
+			h.Blocks[5] = append(h.Blocks[5], call("release", "Release"), call("hold", "Hold", "d"))
+			h.Blocks[6] = append(h.Blocks[6], call("release-all", "ReleaseAll"))
+		}
 		m := &mon{c: c, seed: seed, h: h}
 		ch, err := hist.Play(h, hist.PlayOpts{Monitors: []hist.Monitor{m}, RestartAt: map[int]bool{blocks / 2: true}})
 		if ch != nil {
@@ -191,5 +207,6 @@ func run(c *vf.Ctx) {
 	c.RequireCounter("deposit_lock_events", 10)
 	c.RequireCounter("deposit_unlock_events", 2)
 	c.RequireCounter("realm_records_with_params_bytes", 1)
+	c.RequireCounter("scripted_releases_of_foreign_owned_objects", int64(n))
 	c.RequireCounter("txs_failed_for_deposit_limit", 1)
 }
